@@ -6,8 +6,18 @@ package rueidislimiter
 // ---------------------------------------------------------------------------------------------
 // C38 — the Go side of the rate limiter: the admission decision computed from the script's reply (current, resetAt).
 // The Lua script itself (running sum per window, atomic under EVAL) is assumed.
+// The script is told the instant of the call (ARGV[3]) and the end of the window that instant opens (ARGV[2]); the window is the
+// one that applies to THIS call (the last per-call option, else the limiter's default): "ResetAtMs identifies the window the call
+// was counted in". Both are millisecond clocks, so the difference is the window in milliseconds up to the truncation of either.
+// Assumed (documented meaning of time.Time.Add / UnixMilli / Duration.Milliseconds, no overflow):
+//@ specfn msclock(t time.Time) int64 = t.UnixMilli()
+//@ specfn shifted(t time.Time, d time.Duration) time.Time = t.Add(d)
+//@ specfn msof(d time.Duration) int64 = d.Milliseconds()
+//@ axiom [time-add-shifts-the-millisecond-clock] forall t time.Time, d time.Duration :: {msclock(shifted(t, d))} (-1 <= msclock(shifted(t, d)) - msclock(t) - msof(d) && msclock(shifted(t, d)) - msclock(t) - msof(d) <= 1)
 //@ func rateLimiter.AllowN
 //@   modifies *
+//@   assert [C38 the-script-gets-the-window-of-this-call] at AppendInt#3: -1 <= before(AppendInt, arg1) - arg1 - msof(rl.window) && before(AppendInt, arg1) - arg1 - msof(rl.window) <= 1
+//@   assert [C38 the-window-is-the-last-option-else-the-default] at AppendInt#3: (len(options) > 0 ==> rl == old(options[len(options) - 1])) && (len(options) == 0 ==> rl == old(l.defaultRateLimit))
 //@   ensures [C38 negative-request-is-rejected] n < 0 ==> result1 != nil
 //@   ensures [C38 decision where-defined] result1 == nil ==> ((result0.Allowed <==> (current <= rl.limit && (n > 0 || current < rl.limit))) && result0.Remaining == max(rl.limit - current, 0) && result0.ResetAtMs == resetAt)
 //@   ensures [C38 admitted-request-fits where-defined] (result1 == nil && result0.Allowed && n > 0) ==> current <= rl.limit
